@@ -150,7 +150,7 @@ func c06GenMsg(t *rapid.T) c06MsgScen {
 	}
 	baseRL := c06ParseHdr(enc).rl
 	center := rapid.SampledFrom([]int{128, 128, 128, 16384, 16384, 0}).Draw(t, "rlCenter")
-	if rapid.IntRange(0, 299).Draw(t, "big") == 0 {
+	if rapid.IntRange(0, 299).Draw(t, "big") == 137 { // rare (rapid favours the bounds of a range, not its middle)
 		center = 2097152
 	}
 	if center == 0 {
@@ -216,9 +216,15 @@ func c06RunMsg(s c06MsgScen, c *ev.Case) *ev.Violation {
 		return ev.Violf("C06.size", "reference encoding %d bytes, gmqtt encoding %d bytes (%s)", len(want), len(enc), ref).With(feats...)
 	}
 	if int(total) != len(enc) {
-		if s.CorrEmpty && int(total)+3 == len(enc) && ev.KF(c06KFCorrEmpty) {
-			c.Excluded(c06KFCorrEmpty)
-			return nil
+		if s.CorrEmpty && ev.KF(c06KFCorrEmpty) {
+			// recorded wrong outcome: the size of the same PUBLISH without the (empty)
+			// Correlation Data property that MessageToPublish+Pack nevertheless emits
+			s2 := s
+			s2.CorrEmpty = false
+			if w2, err := mw.Encode(c06MsgRef(s2, true), mw.Version(s.V)); err == nil && int(total) == len(w2) {
+				c.Excluded(c06KFCorrEmpty)
+				return nil
+			}
 		}
 		return ev.Violf("C06.size", "Message.TotalBytes(%d)=%d, MessageToPublish+Pack is %d bytes (%s)", s.V, total, len(enc), ref).With(feats...)
 	}
